@@ -20,6 +20,8 @@ Section P.
   Notation check_in := (check_in frepr loads_s).
   Notation check := (check frepr loads_s).
   Notation repair_loop := (repair_loop frepr loads_s loads_b).
+  Notation relocate := (relocate).
+  Notation reinit := (reinit frepr loads_b).
   Notation repair_in := (repair_in frepr loads_s loads_b).
   Notation sound := (sound frepr).
   Notation Inv := (Inv frepr).
@@ -255,39 +257,489 @@ Section P.
       eapply frame_makedirs; eauto.
   Qed.
 
+  Lemma frame_relocate : forall f i ci f1, relocate f i ci = Some f1 -> frame f f1.
+  Proof.
+    intros f i ci f1 H. unfold Repair.relocate in H.
+    destruct (str_eqb ci i); [inversion H; subst; apply frame_refl|].
+    destruct (rename f (jdir i) (jdir ci)) as [g|] eqn:Er; inversion H; subst. eapply frame_rename; eauto.
+  Qed.
+
+  Lemma frame_reinit : forall f s sp f' s' ok, reinit f s sp = (f', s', ok) -> frame f f'.
+  Proof.
+    intros f s sp f' s' ok H. unfold Repair.reinit in H.
+    destruct (jinit false f s sp) as [[f2 s2] [u|e]] eqn:E1.
+    - inversion H; subst. eapply frame_jinit; eauto.
+    - destruct (jinit true f2 s2 sp) as [[f3 s3] [u|e']] eqn:E2; inversion H; subst;
+        (eapply frame_trans; eapply frame_jinit; eauto).
+  Qed.
+
   Lemma frame_loop : forall ids f s corrupted f' s' r,
     repair_loop f s ids corrupted = (f', s', r) -> frame f f'.
   Proof.
     induction ids as [|i rest IH]; intros f s corrupted f' s' r H; simpl in H.
     - inversion H; subst. apply frame_refl.
     - destruct (get_statepoint f s false i) as [s1 [sp|e]] eqn:Eg.
-      + set (ci := Cache.cid frepr sp) in *.
-        destruct (if str_eqb ci i then Some f
-                  else match rename f (jdir i) (jdir ci) with FOk f1 => Some f1 | FErr _ => None end) as [f1|] eqn:Em.
-        * assert (W1 : frame f f1).
-          { destruct (str_eqb ci i); [inversion Em; subst; apply frame_refl|].
-            destruct (rename f (jdir i) (jdir ci)) as [g|] eqn:Er; inversion Em; subst. eapply frame_rename; eauto. }
-          assert (TAIL : forall f' s' r,
-                    match jinit false f1 s1 sp with
-                    | (f2, s2, Ok _) => repair_loop f2 s2 rest corrupted
-                    | (f2, s2, Err _) =>
-                        match jinit true f2 s2 sp with
-                        | (f3, s3, Ok _) => repair_loop f3 s3 rest corrupted
-                        | (f3, s3, Err _) => repair_loop f3 s3 rest (corrupted ++ [i])
-                        end
-                    end = (f', s', r) -> frame f f').
-          { intros g' t' r' E.
-            destruct (jinit false f1 s1 sp) as [[f2 s2] [u|e]] eqn:E1.
-            - eapply frame_trans; [exact W1|]. eapply frame_trans; [eapply frame_jinit; eauto|]. eapply IH; eauto.
-            - destruct (jinit true f2 s2 sp) as [[f3 s3] [u|e']] eqn:E2;
-                (eapply frame_trans; [exact W1|]; eapply frame_trans; [eapply frame_jinit; eauto|];
-                 eapply frame_trans; [eapply frame_jinit; eauto|]; eapply IH; eauto). }
-          destruct sp; try (eapply TAIL; exact H). inversion H; subst. exact W1.
-        * eapply IH; eauto.
+      + destruct (relocate f i (Cache.cid frepr sp)) as [f1|] eqn:Em; [|eapply IH; eauto].
+        pose proof (frame_relocate _ _ _ _ Em) as W1.
+        destruct (reinit f1 s1 sp) as [[f2 s2] ok] eqn:Er.
+        pose proof (frame_reinit _ _ _ _ _ _ Er) as W2.
+        destruct sp; try (eapply frame_trans; [exact W1|]; eapply frame_trans; [exact W2|]; eapply IH; exact H).
+        inversion H; subst. exact W1.
       + destruct e; try (inversion H; subst; apply frame_refl). eapply IH; eauto.
   Qed.
 
   Theorem repair_frame : forall f s ids f' s' r, repair_in f s ids = (f', s', r) -> frame f f'.
   Proof. intros f s ids f' s' r H. unfold Repair.repair_in in H. eapply frame_loop; eauto. Qed.
+
+
+  (* ================================================================ D. repair() restores *)
+  (* the two decoders invert the file printer, and agree whenever the bytes decoder yields a value *)
+  Hypothesis Hinv_s : forall v, loads_s (dumps frepr v) = Some v.
+  Hypothesis Hinv_b : forall v, loads_b (dumps frepr v) = DVal v.
+  Hypothesis Hagree : forall b v, loads_b b = DVal v -> loads_s b = Some v.
+
+  (* no directory bears the name of a state point file or of its temp file *)
+  Definition NoSpDirs (f : fs) : Prop := forall j, get f (spf j) <> Some Dir /\ get f (tmpf j) <> Some Dir.
+
+  Lemma makedirs_jdir_existing : forall f i,
+    get f [WS] = Some Dir -> get f (jdir i) = Some Dir -> makedirs f (jdir i) = FOk f.
+  Proof.
+    intros f i H1 H2. unfold makedirs, jdir in *. simpl in *. rewrite H1, H2. reflexivity.
+  Qed.
+
+  Lemma json_write_ok : forall f i v,
+    get f (jdir i) = Some Dir -> get f (tmpf i) <> Some Dir -> get f (spf i) <> Some Dir ->
+    exists f', json_write frepr f (spf i) v = FOk f'.
+  Proof.
+    intros f i v Hd Ht Hs. unfold json_write. rewrite tmp_of_spf.
+    assert (Ew : exists f1, write_file f (tmpf i) (sp_content frepr v) = FOk f1).
+    { unfold write_file. change (parent (tmpf i)) with (jdir i). rewrite Hd.
+      destruct (get f (tmpf i)) as [[c|]|]; eauto. exfalso. apply Ht. reflexivity. }
+    destruct Ew as [f1 Ew]. rewrite Ew.
+    pose proof (fun q => get_write_file f (tmpf i) _ f1 q Ew) as G1.
+    unfold rename. rewrite (G1 (tmpf i)), path_eqb_refl.
+    change (parent (spf i)) with (jdir i). rewrite (G1 (jdir i)).
+    assert (E1 : path_eqb (jdir i) (tmpf i) = false) by (apply path_eqb_neq; discriminate). rewrite E1, Hd.
+    assert (E2 : path_eqb (tmpf i) (spf i) = false) by (apply path_eqb_neq, tmpf_neq_spf). rewrite E2.
+    rewrite (G1 (spf i)). assert (E3 : path_eqb (spf i) (tmpf i) = false) by (rewrite path_eqb_sym; exact E2).
+    rewrite E3. destruct (get f (spf i)) as [[c|]|]; eauto. exfalso. apply Hs. reflexivity.
+  Qed.
+
+  Lemma valid_written : forall f i v f', json_write frepr f (spf i) v = FOk f' -> cid v = i -> valid f' i = true.
+  Proof.
+    intros f i v f' H Hc. unfold Repair.valid. rewrite (json_write_spf frepr f i v f' H), path_eqb_refl.
+    simpl. rewrite Hinv_s. apply str_eqb_eq. exact Hc.
+  Qed.
+
+  Lemma load_written : forall f i v f', json_write frepr f (spf i) v = FOk f' -> cid v = i -> is_objb v = true ->
+    sp_load_view f' i = Ok (v, v).
+  Proof.
+    intros f i v f' H Hc Ho. unfold Cache.sp_load_view, Cache.sp_load.
+    rewrite (json_write_spf frepr f i v f' H), path_eqb_refl. simpl. rewrite Hinv_b.
+    unfold Cache.cid in *. rewrite Hc, str_eqb_refl. destruct v; try discriminate. reflexivity.
+  Qed.
+
+  (* a successful load (with a file) means check() accepts the job too *)
+  Lemma load_ok_valid : forall f i d v, i <> cid JNull -> sp_load_view f i = Ok (d, v) -> valid f i = true.
+  Proof.
+    intros f i d v Hn H. unfold Cache.sp_load_view in H. destruct (sp_load f i) as [d'|] eqn:E; [|discriminate].
+    unfold Cache.sp_load in E. unfold Repair.valid.
+    destruct (get f (spf i)) as [[c|]|].
+    - destruct (loads_b (c_bytes c)) as [x| |] eqn:Eb; try discriminate.
+      rewrite (Hagree _ _ Eb). destruct (str_eqb (Cache.cid frepr x) i) eqn:Ex; [reflexivity|discriminate].
+    - discriminate.
+    - destruct (str_eqb (Cache.cid frepr JNull) i) eqn:Ex; [|discriminate].
+      apply str_eqb_eq in Ex. exfalso. apply Hn. symmetry. exact Ex.
+  Qed.
+
+  (* the re-initialisation step of repair() on a job whose state point is known makes it valid *)
+  Lemma reinit_restores : forall f s sp i,
+    is_objb sp = true -> cid sp = i -> i <> cid JNull ->
+    get f [WS] = Some Dir -> get f (jdir i) = Some Dir ->
+    get f (spf i) <> Some Dir -> get f (tmpf i) <> Some Dir ->
+    exists f' s', reinit f s sp = (f', s', true) /\ valid f' i = true.
+  Proof.
+    intros f s sp i Ho Hc Hn Hw Hd Hs Ht. unfold Repair.reinit, Cache.jinit. rewrite Ho. simpl negb. cbv iota.
+    unfold Cache.cid in *. rewrite Hc. rewrite (makedirs_jdir_existing f i Hw Hd).
+    destruct (sp_load_view f i) as [[d v]|e] eqn:El.
+    - exists f, s. split; auto. eapply load_ok_valid; eauto.
+    - destruct (isfile f (spf i)) eqn:Ef; simpl orb; cbv iota.
+      + (* a damaged file is there: the first init fails, the forced one rewrites *)
+        rewrite El. cbv beta iota. rewrite El, (makedirs_jdir_existing f i Hw Hd).
+        destruct (json_write_ok f i sp Hd Ht Hs) as [f2 Ew]. rewrite Ew.
+        rewrite (load_written f i sp f2 Ew Hc Ho). cbv beta iota. eexists _, _. split; [reflexivity|].
+        eapply valid_written; eauto.
+      + destruct (json_write_ok f i sp Hd Ht Hs) as [f2 Ew]. rewrite Ew.
+        rewrite (load_written f i sp f2 Ew Hc Ho). cbv beta iota. eexists _, _. split; [reflexivity|].
+        eapply valid_written; eauto.
+  Qed.
+
+
+  (* ---- what one iteration of the loop does to the rest of the workspace *)
+  Definition WsOk (f : fs) : Prop := get f [WS] = Some Dir /\ NoSpDirs f.
+
+  Lemma valid_ext : forall f f' i, get f' (spf i) = get f (spf i) -> valid f' i = valid f i.
+  Proof. intros f f' i H. unfold Repair.valid. rewrite H. reflexivity. Qed.
+
+  Lemma valid_file : forall f i, valid f i = true -> exists c, get f (spf i) = Some (File c).
+  Proof.
+    intros f i H. unfold Repair.valid in H. destruct (get f (spf i)) as [[c|]|]; try discriminate. eauto.
+  Qed.
+
+  Lemma relocate_facts : forall f k ck f1, relocate f k ck = Some f1 -> WsOk f ->
+    WsOk f1 /\ cache_file f1 = cache_file f /\
+    (forall j, j <> k -> get f (jdir j) = Some Dir -> get f1 (jdir j) = Some Dir) /\
+    (forall j, j <> k -> valid f j = true -> valid f1 j = true).
+  Proof.
+    intros f k ck f1 H [Hw Hn]. unfold Repair.relocate in H.
+    destruct (str_eqb ck k) eqn:Eck; [inversion H; subst; repeat split; auto; apply Hn|].
+    destruct (rename f (jdir k) (jdir ck)) as [g|] eqn:Er; inversion H; subst g. clear H.
+    assert (W : ws_only f f1) by (eapply rename_ws_only; eauto; reflexivity).
+    apply str_eqb_neq in Eck.
+    assert (Eab : jdir k <> jdir ck) by (intro E; inversion E; congruence).
+    split; [|split; [apply ws_only_cache_file; exact W|]].
+    - destruct (get f (jdir k)) as [[c0|]|] eqn:Ea.
+      + pose proof (fun q => get_rename_file f (jdir k) (jdir ck) c0 f1 q Ea Eab Er) as G.
+        split.
+        * rewrite G. assert (E1 : path_eqb [WS] (jdir ck) = false) by (apply path_eqb_neq; discriminate).
+          assert (E2 : path_eqb [WS] (jdir k) = false) by (apply path_eqb_neq; discriminate).
+          rewrite E1, E2. exact Hw.
+        * intro j. rewrite !G.
+          assert (E1 : path_eqb (spf j) (jdir ck) = false) by (apply path_eqb_neq; discriminate).
+          assert (E2 : path_eqb (spf j) (jdir k) = false) by (apply path_eqb_neq; discriminate).
+          assert (E3 : path_eqb (tmpf j) (jdir ck) = false) by (apply path_eqb_neq; discriminate).
+          assert (E4 : path_eqb (tmpf j) (jdir k) = false) by (apply path_eqb_neq; discriminate).
+          rewrite E1, E2, E3, E4. apply Hn.
+      + pose proof (fun q => get_rename_dir f (jdir k) (jdir ck) f1 q Ea Eab Er) as G.
+        split.
+        * rewrite G. simpl. exact Hw.
+        * intro j. change (spf j) with ([WS; j] ++ [SPF]). change (tmpf j) with ([WS; j] ++ [TMPPFX ++ SPF]).
+          rewrite !G, !strip_jdir. unfold under. rewrite !strip_jdir.
+          destruct (str_eqb ck j).
+          -- apply (Hn k).
+          -- destruct (str_eqb k j); [split; discriminate|apply (Hn j)].
+      + unfold rename in Er. rewrite Ea in Er. discriminate.
+    - destruct (get f (jdir k)) as [[c0|]|] eqn:Ea.
+      + pose proof (fun q => get_rename_file f (jdir k) (jdir ck) c0 f1 q Ea Eab Er) as G.
+        split.
+        * intros j Hj Hd. rewrite G. destruct (path_eqb (jdir j) (jdir ck)) eqn:E1.
+          -- (* a file renamed onto an existing directory: impossible *)
+             apply path_eqb_eq in E1. inversion E1; subst j. exfalso.
+             unfold rename in Er. rewrite Ea in Er. destruct (get f (parent (jdir ck))) as [[x|]|]; try discriminate.
+             apply path_eqb_neq in Eab. rewrite Eab in Er. rewrite Hd in Er. discriminate.
+          -- assert (E2 : path_eqb (jdir j) (jdir k) = false) by (apply path_eqb_neq; intro E; inversion E; congruence).
+             rewrite E2. exact Hd.
+        * intros j Hj Hv. rewrite (valid_ext f f1 j); auto. rewrite G.
+          assert (E1 : path_eqb (spf j) (jdir ck) = false) by (apply path_eqb_neq; discriminate).
+          assert (E2 : path_eqb (spf j) (jdir k) = false) by (apply path_eqb_neq; discriminate).
+          rewrite E1, E2. reflexivity.
+      + pose proof (fun q => get_rename_dir f (jdir k) (jdir ck) f1 q Ea Eab Er) as G.
+        destruct (rename_dir_ok_dest f (jdir k) (jdir ck) f1 Ea Eab Er) as [_ Hch].
+        split.
+        * intros j Hj Hd. rewrite G. change (jdir j) with ([WS; j] ++ []). rewrite strip_jdir.
+          destruct (str_eqb ck j); [rewrite app_nil_r; exact Ea|].
+          unfold under. rewrite strip_jdir.
+          assert (E : str_eqb k j = false) by (apply str_eqb_neq; congruence). rewrite E. exact Hd.
+        * intros j Hj Hv. rewrite (valid_ext f f1 j); auto.
+          change (spf j) with ([WS; j] ++ [SPF]). rewrite G, strip_jdir. unfold under. rewrite strip_jdir.
+          destruct (str_eqb ck j) eqn:E1.
+          -- (* the destination held a valid job: it had children, the rename cannot have succeeded *)
+             apply str_eqb_eq in E1. subst j. exfalso. destruct (valid_file f ck Hv) as [c Hc].
+             change (spf ck) with (jdir ck ++ [SPF]) in Hc. rewrite get_app_cons in Hc.
+             rewrite (has_children_false f (jdir ck) SPF [] Hch) in Hc. discriminate.
+          -- assert (E : str_eqb k j = false) by (apply str_eqb_neq; congruence). rewrite E. reflexivity.
+      + unfold rename in Er. rewrite Ea in Er. discriminate.
+  Qed.
+
+
+  Lemma makedirs_jdir_facts : forall f i f1, makedirs f (jdir i) = FOk f1 -> WsOk f ->
+    WsOk f1 /\ (forall j, get f (jdir j) = Some Dir -> get f1 (jdir j) = Some Dir) /\
+    (forall j, get f1 (spf j) = get f (spf j)) /\ (forall j, get f1 (tmpf j) = get f (tmpf j)).
+  Proof.
+    intros f i f1 H [Hw Hn].
+    assert (F3 : forall q, length q = 3%nat -> get f1 q = get f q).
+    { intros q Hq. unfold makedirs in H. eapply makedirs_from_frame; [exact H| |destruct q; discriminate].
+      simpl. destruct (under q [WS; i]) eqn:E; auto. apply under_spec in E. destruct E as [r E].
+      apply (f_equal (@length str)) in E. rewrite app_length, Hq in E. simpl in E. lia. }
+    assert (S : forall j, get f1 (spf j) = get f (spf j)) by (intro j; apply F3; reflexivity).
+    assert (T : forall j, get f1 (tmpf j) = get f (tmpf j)) by (intro j; apply F3; reflexivity).
+    split; [split|split; [|split]]; auto.
+    - eapply makedirs_keeps; eauto.
+    - intro j. rewrite S, T. apply Hn.
+    - intros j Hd. eapply makedirs_keeps; eauto.
+  Qed.
+
+  Lemma json_write_facts : forall f i v f1, json_write frepr f (spf i) v = FOk f1 -> WsOk f ->
+    WsOk f1 /\ (forall j, get f (jdir j) = Some Dir -> get f1 (jdir j) = Some Dir) /\
+    (forall j, j <> i -> get f1 (spf j) = get f (spf j)).
+  Proof.
+    intros f i v f1 H [Hw Hn]. pose proof (json_write_spf frepr f i v f1 H) as G.
+    split; [split|split].
+    - rewrite G. assert (E1 : path_eqb [WS] (spf i) = false) by (apply path_eqb_neq; discriminate).
+      assert (E2 : path_eqb [WS] (tmpf i) = false) by (apply path_eqb_neq; discriminate). rewrite E1, E2. exact Hw.
+    - intro j. rewrite !G. split.
+      + destruct (path_eqb (spf j) (spf i)); [discriminate|].
+        destruct (path_eqb (spf j) (tmpf i)); [discriminate|apply Hn].
+      + destruct (path_eqb (tmpf j) (spf i)); [discriminate|].
+        destruct (path_eqb (tmpf j) (tmpf i)); [discriminate|apply Hn].
+    - intros j Hd. rewrite G.
+      assert (E1 : path_eqb (jdir j) (spf i) = false) by (apply path_eqb_neq; discriminate).
+      assert (E2 : path_eqb (jdir j) (tmpf i) = false) by (apply path_eqb_neq; discriminate). rewrite E1, E2. exact Hd.
+    - intros j Hj. rewrite G.
+      assert (E1 : path_eqb (spf j) (spf i) = false) by (apply path_eqb_neq; intro E; inversion E; congruence).
+      assert (E2 : path_eqb (spf j) (tmpf i) = false) by (apply path_eqb_neq; discriminate). rewrite E1, E2. reflexivity.
+  Qed.
+
+  (* what an entry registered by Job.init looks like *)
+  Definition reg_ok (i0 : str) (d : json) : Prop := cid d = i0 /\ (is_objb d = true \/ d = JNull).
+
+  Lemma sp_load_view_reg_ok : forall f i d v, sp_load_view f i = Ok (d, v) -> reg_ok i d.
+  Proof.
+    intros f i d v H. split; [eapply sp_load_view_valid; eauto|].
+    unfold Cache.sp_load_view in H. destruct (sp_load f i) as [d'|]; [|discriminate].
+    destruct d'; simpl in H; inversion H; subst; auto.
+  Qed.
+
+  Lemma jinit_facts : forall force f s sp f' s' r, jinit force f s sp = (f', s', r) -> WsOk f ->
+    let i0 := cid sp in
+    WsOk f' /\ cache_file f' = cache_file f /\
+    (forall j, get f (jdir j) = Some Dir -> get f' (jdir j) = Some Dir) /\
+    (forall j, j <> i0 -> get f' (spf j) = get f (spf j)) /\
+    (valid f i0 = true -> valid f' i0 = true) /\
+    (s' = s \/ exists d, s' = reg s i0 d /\ reg_ok i0 d).
+  Proof.
+    intros force f s sp f' s' r H Hok i0.
+    assert (HC : cache_file f' = cache_file f) by (apply ws_only_cache_file; eapply jinit_ws_only; eauto).
+    unfold Cache.jinit in H. fold i0 in H. unfold Cache.cid in H. fold (cid sp) in H. fold i0 in H.
+    destruct (is_objb sp) eqn:Ho; simpl in H.
+    - destruct (sp_load_view f i0) as [[d0 v0]|e0] eqn:El0.
+      { inversion H; subst. repeat split; auto; apply Hok. }
+      destruct (makedirs f (jdir i0)) as [f1|] eqn:Em; [|inversion H; subst; repeat split; auto; apply Hok].
+      destruct (makedirs_jdir_facts f i0 f1 Em Hok) as [Hok1 [D1 [S1 T1]]].
+      destruct (force || negb (isfile f1 (spf i0))) eqn:Ewr.
+      + destruct (json_write frepr f1 (spf i0) sp) as [f2|] eqn:Ew.
+        * destruct (json_write_facts f1 i0 sp f2 Ew Hok1) as [Hok2 [D2 S2]].
+          assert (V2 : valid f2 i0 = true) by (eapply valid_written; eauto).
+          destruct (sp_load_view f2 i0) as [[d v]|e] eqn:El; inversion H; subst;
+            (split; [exact Hok2|]; split; [exact HC|]; split; [intros j Hd; apply D2, D1, Hd|];
+             split; [intros j Hj; rewrite S2, S1 by auto; reflexivity|]; split; [intros _; exact V2|]).
+          -- right. exists d. split; auto. eapply sp_load_view_reg_ok; eauto.
+          -- left. reflexivity.
+        * inversion H; subst. split; [exact Hok1|]. split; [exact HC|]. split; [exact D1|].
+          split; [intros j _; apply S1|]. split; [intro Hv; rewrite (valid_ext f f' i0 (S1 i0)); exact Hv|auto].
+      + destruct (sp_load_view f1 i0) as [[d v]|e] eqn:El; inversion H; subst;
+          (split; [exact Hok1|]; split; [exact HC|]; split; [exact D1|]; split; [intros j _; apply S1|];
+           split; [intro Hv; rewrite (valid_ext f f' i0 (S1 i0)); exact Hv|]).
+        * right. exists d. split; auto. eapply sp_load_view_reg_ok; eauto.
+        * left. reflexivity.
+    - destruct (makedirs f (jdir i0)) as [f1|] eqn:Em; inversion H; subst; [|repeat split; auto; apply Hok].
+      destruct (makedirs_jdir_facts f i0 f' Em Hok) as [Hok1 [D1 [S1 T1]]].
+      split; [exact Hok1|]. split; [exact HC|]. split; [exact D1|]. split; [intros j _; apply S1|].
+      split; [intro Hv; rewrite (valid_ext f f' i0 (S1 i0)); exact Hv|auto].
+  Qed.
+
+
+  (* the session after Job.init: either unchanged or one or two registrations under cid sp *)
+  Inductive regs (i0 : str) : sess -> sess -> Prop :=
+  | regs_refl : forall s, regs i0 s s
+  | regs_step : forall s s1 d, regs i0 s s1 -> reg_ok i0 d -> regs i0 s (reg s1 i0 d).
+
+  Lemma reinit_facts : forall f s sp f' s' ok, reinit f s sp = (f', s', ok) -> WsOk f ->
+    let i0 := cid sp in
+    WsOk f' /\ cache_file f' = cache_file f /\
+    (forall j, get f (jdir j) = Some Dir -> get f' (jdir j) = Some Dir) /\
+    (forall j, j <> i0 -> get f' (spf j) = get f (spf j)) /\
+    (valid f i0 = true -> valid f' i0 = true) /\ regs i0 s s'.
+  Proof.
+    intros f s sp f' s' ok H Hok i0. unfold Repair.reinit in H.
+    destruct (jinit false f s sp) as [[f2 s2] r1] eqn:E1.
+    destruct (jinit_facts _ _ _ _ _ _ _ E1 Hok) as [Hok2 [C2 [D2 [S2 [V2 R2]]]]].
+    assert (RG2 : regs i0 s s2).
+    { destruct R2 as [->|[d [-> Hd]]]; [apply regs_refl|apply regs_step; [apply regs_refl|exact Hd]]. }
+    destruct r1 as [u|e].
+    - inversion H; subst. split; [exact Hok2|]. split; [exact C2|]. split; [exact D2|]. split; [exact S2|]. split; [exact V2|exact RG2].
+    - destruct (jinit true f2 s2 sp) as [[f3 s3] r2] eqn:E2.
+      destruct (jinit_facts _ _ _ _ _ _ _ E2 Hok2) as [Hok3 [C3 [D3 [S3 [V3 R3]]]]].
+      assert (RG3 : regs i0 s s3).
+      { destruct R3 as [->|[d [-> Hd]]]; [exact RG2|apply regs_step; [exact RG2|exact Hd]]. }
+      assert (f' = f3 /\ s' = s3) by (destruct r2; inversion H; auto). destruct H0; subst.
+      split; [exact Hok3|]. split; [congruence|]. split; [intros j Hd; apply D3, D2, Hd|].
+      split; [intros j Hj; rewrite S3, S2 by auto; reflexivity|]. split; [intro Hv; apply V3, V2, Hv|exact RG3].
+  Qed.
+
+  (* ---- the cache entry of the job to be restored *)
+  Definition good (i : str) (x : json) : Prop := cid x = i /\ is_objb x = true.
+  Definition GoodE (i : str) (c : cache) : Prop := exists x, alookup i c = Some x /\ good i x.
+  Definition FileGood (i : str) (f : fs) : Prop :=
+    forall c v, cache_file f = Some c -> In (i, v) c -> good i v.
+
+  Lemma GoodE_aset : forall i c k v, GoodE i c -> (k = i -> good i v) -> GoodE i (aset k v c).
+  Proof.
+    intros i c k v [x [Hx Hg]] Hk. destruct (str_eq_dec k i) as [->|Hne].
+    - exists v. split; [apply alookup_aset_same|auto].
+    - exists x. split; auto. rewrite alookup_aset_other; auto.
+  Qed.
+
+  Lemma GoodE_dict_upd : forall i new c,
+    (forall v, In (i, v) new -> good i v) -> GoodE i c \/ In i (map fst new) -> GoodE i (dict_upd c new).
+  Proof.
+    unfold dict_upd. induction new as [|[k v] new IH]; simpl; intros c Hg H.
+    - destruct H as [H|[]]. exact H.
+    - apply IH; [intros v' Hv'; apply Hg; auto|].
+      destruct (str_eq_dec k i) as [->|Hne].
+      + left. exists v. split; [apply alookup_aset_same|apply Hg; auto].
+      + destruct H as [H|[H|H]]; [left; apply GoodE_aset; auto; congruence|congruence|right; exact H].
+  Qed.
+
+  Lemma GoodE_ensure_read : forall i f s, FileGood i f -> GoodE i (s_cache s) -> GoodE i (s_cache (ensure_read f s)).
+  Proof.
+    intros i f s Hf Hg. unfold Cache.ensure_read, Cache.read_cache. destruct (s_read s); auto.
+    destruct (cache_file f) as [c|] eqn:E; simpl; auto. apply GoodE_dict_upd; auto. intros v Hv. eapply Hf; eauto.
+  Qed.
+
+  Lemma GoodE_regs : forall i i0 s s', i <> cid JNull -> regs i0 s s' -> GoodE i (s_cache s) -> GoodE i (s_cache s').
+  Proof.
+    intros i i0 s s' Hn R. induction R as [|s0 s1 d R IH Hrk]; intro Hg; auto.
+    destruct Hrk as [Hc Hd]. simpl. apply GoodE_aset; auto. intro E. subst i0. split; auto.
+    destruct Hd as [Hd|Hd]; auto. subst d. exfalso. apply Hn. symmetry. exact E.
+  Qed.
+
+  Lemma get_statepoint_GoodE : forall i f s k s1 r, k <> i -> FileGood i f -> GoodE i (s_cache s) ->
+    get_statepoint f s false k = (s1, r) -> GoodE i (s_cache s1).
+  Proof.
+    intros i f s k s1 r Hk Hf Hg H. unfold Cache.get_statepoint in H.
+    pose proof (GoodE_ensure_read i f s Hf Hg) as H1.
+    destruct (alookup k (s_cache (ensure_read f s))); [inversion H; subst; auto|].
+    destruct (sp_from_ws f false k); inversion H; subst; auto.
+    simpl. apply GoodE_aset; auto. congruence.
+  Qed.
+
+  (* ---- valid jobs stay valid to the end of the loop *)
+  Lemma loop_keeps_valid : forall ids f s corrupted f' s' r i,
+    ~ In i ids -> WsOk f -> valid f i = true ->
+    repair_loop f s ids corrupted = (f', s', r) -> valid f' i = true.
+  Proof.
+    induction ids as [|k rest IH]; intros f s corrupted f' s' r i Hni Hok Hv H; simpl in H.
+    - inversion H; subst. exact Hv.
+    - assert (Hk : i <> k) by (intro E; apply Hni; left; auto).
+      assert (Hr : ~ In i rest) by (intro E; apply Hni; right; auto).
+      destruct (get_statepoint f s false k) as [s1 [sp|e]] eqn:Eg.
+      + destruct (relocate f k (Cache.cid frepr sp)) as [f1|] eqn:Em; [|eapply IH; eauto].
+        destruct (relocate_facts _ _ _ _ Em Hok) as [Hok1 [_ [_ V1]]].
+        specialize (V1 i Hk Hv).
+        destruct (reinit f1 s1 sp) as [[f2 s2] ok] eqn:Er.
+        destruct (reinit_facts _ _ _ _ _ _ Er Hok1) as [Hok2 [_ [_ [S2 [V2 _]]]]].
+        assert (Hv2 : valid f2 i = true).
+        { destruct (str_eq_dec i (cid sp)) as [E|E]; [subst i; apply V2; exact V1|].
+          rewrite (valid_ext f1 f2 i (S2 i E)). exact V1. }
+        destruct sp; try (eapply IH; [exact Hr|exact Hok2|exact Hv2|exact H]).
+        inversion H; subst. exact V1.
+      + destruct e; try (inversion H; subst; exact Hv). eapply IH; eauto.
+  Qed.
+
+  (* ---- the main induction: a damaged job whose state point is in the cache validates afterwards *)
+  Lemma loop_restores_cached : forall ids f s corrupted f' s' r i,
+    NoDup ids -> In i ids -> i <> cid JNull ->
+    WsOk f -> get f (jdir i) = Some Dir -> GoodE i (s_cache s) -> FileGood i f ->
+    repair_loop f s ids corrupted = (f', s', r) -> (forall e l, r <> RAbort e l) ->
+    valid f' i = true.
+  Proof.
+    induction ids as [|k rest IH]; intros f s corrupted f' s' r i Hnd Hin Hn Hok Hd Hg Hf H Hna; [contradiction|].
+    inversion Hnd as [|? ? Hk Hnd']; subst. simpl in H.
+    destruct (str_eq_dec k i) as [->|Hki].
+    - (* this job's turn *)
+      pose proof (GoodE_ensure_read i f s Hf Hg) as [x [Hx [Hc Ho]]].
+      assert (Eg : get_statepoint f s false i = (ensure_read f s, Ok x)).
+      { unfold Cache.get_statepoint. rewrite Hx. reflexivity. }
+      rewrite Eg in H. unfold Cache.cid in *. rewrite Hc in H.
+      unfold Repair.relocate in H. rewrite str_eqb_refl in H.
+      destruct (reinit_restores f (ensure_read f s) x i Ho Hc Hn (proj1 Hok) Hd (proj1 (proj2 Hok i)) (proj2 (proj2 Hok i)))
+        as [f2 [s2 [Er Hv2]]].
+      rewrite Er in H.
+      destruct (reinit_facts _ _ _ _ _ _ Er Hok) as [Hok2 _].
+      destruct x; try discriminate. eapply loop_keeps_valid; [exact Hk|exact Hok2|exact Hv2|exact H].
+    - destruct Hin as [E|Hin]; [congruence|].
+      destruct (get_statepoint f s false k) as [s1 [sp|e]] eqn:Eg.
+      + pose proof (get_statepoint_GoodE i f s k s1 _ Hki Hf Hg Eg) as Hg1.
+        destruct (relocate f k (Cache.cid frepr sp)) as [f1|] eqn:Em; [|eapply IH; eauto].
+        destruct (relocate_facts _ _ _ _ Em Hok) as [Hok1 [C1 [D1 _]]].
+        assert (Hd1 : get f1 (jdir i) = Some Dir) by (apply D1; auto).
+        assert (Hf1 : FileGood i f1) by (intros c v Hc; rewrite C1 in Hc; eapply Hf; eauto).
+        destruct (reinit f1 s1 sp) as [[f2 s2] ok] eqn:Er.
+        destruct (reinit_facts _ _ _ _ _ _ Er Hok1) as [Hok2 [C2 [D2 [_ [_ R2]]]]].
+        assert (Hf2 : FileGood i f2) by (intros c v Hc; rewrite C2 in Hc; eapply Hf1; eauto).
+        pose proof (GoodE_regs i _ _ _ Hn R2 Hg1) as Hg2.
+        destruct sp; try (eapply IH; [exact Hnd'|exact Hin|exact Hn|exact Hok2|apply D2; exact Hd1|exact Hg2|exact Hf2|exact H|exact Hna]).
+        inversion H; subst. exfalso. eapply Hna; reflexivity.
+      + pose proof (get_statepoint_GoodE i f s k s1 _ Hki Hf Hg Eg) as Hg1.
+        destruct e; try (inversion H; subst; exfalso; eapply Hna; reflexivity). eapply IH; eauto.
+  Qed.
+
+  (* repair(): every damaged job whose state point is in the (sound) persistent cache validates afterwards —
+     PROVIDED the loop is not left by an exception (see repair_restores_refuted) *)
+  Theorem repair_restores_cached_partial : forall f s ids f' s' r i c sp,
+    NoDup ids -> In i ids -> i <> cid JNull ->
+    get f [WS] = Some Dir -> NoSpDirs f -> get f (jdir i) = Some Dir ->
+    cache_file f = Some c -> In (i, sp) c -> (forall v, In (i, v) c -> cid v = i /\ is_objb v = true) ->
+    repair_in f s ids = (f', s', r) -> (forall e l, r <> RAbort e l) ->
+    valid f' i = true.
+  Proof.
+    intros f s ids f' s' r i c sp Hnd Hin Hn Hw Hns Hd Hc Hsp Hgood H Hna.
+    unfold Repair.repair_in in H.
+    assert (Hf : FileGood i f).
+    { intros c' v Hc' Hv. rewrite Hc in Hc'. inversion Hc'; subst. apply Hgood. exact Hv. }
+    eapply (loop_restores_cached ids f (fst (read_cache f s)) [] f' s' r i); eauto.
+    - split; auto.
+    - unfold Cache.read_cache. rewrite Hc. simpl. apply GoodE_dict_upd; auto.
+      right. apply (in_map fst) in Hsp. exact Hsp.
+  Qed.
+
+
+  (* ---- a misnamed directory with an intact file: whenever the loop reaches it in a state where its
+     state point is not cached and the directory of its true id is free, it is moved there and validates *)
+  Theorem loop_restores_misnamed_partial : forall rest f s corrupted f' s' r j c v t,
+    WsOk f -> get f (jdir j) = Some Dir ->
+    alookup j (s_cache (ensure_read f s)) = None ->
+    get f (spf j) = Some (File c) -> loads_b (c_bytes c) = DVal v -> is_objb v = true ->
+    cid v = t -> t <> j ->
+    (get f (jdir t) = None \/ get f (jdir t) = Some Dir) -> has_children f (jdir t) = false ->
+    ~ In t rest ->
+    repair_loop f s (j :: rest) corrupted = (f', s', r) ->
+    valid f' t = true /\ get f' (jdir j ++ [SPF]) = get f' (spf j).
+  Proof.
+    intros rest f s corrupted f' s' r j c v t Hok Hd Hmiss Hg Hb Ho Hc Htj Hfree Hch Hnr H.
+    split; [|reflexivity].
+    pose proof (Hagree _ _ Hb) as Hs.
+    simpl in H.
+    assert (Eg : get_statepoint f s false j = (reg (ensure_read f s) j v, Ok v)).
+    { unfold Cache.get_statepoint. rewrite Hmiss. unfold Cache.sp_from_ws. rewrite Hg, Hs. reflexivity. }
+    rewrite Eg in H. unfold Cache.cid in *. rewrite Hc in H.
+    assert (Hab : jdir j <> jdir t) by (intro E; inversion E; congruence).
+    assert (Er : rename f (jdir j) (jdir t) = FOk (move_tree (jdir j) (jdir t) (del_under (jdir t) f))).
+    { apply rename_dir_ok; auto.
+      - exact (proj1 Hok).
+      - unfold under. change (jdir t) with ([WS; t] ++ []). rewrite strip_jdir.
+        assert (E : str_eqb j t = false) by (apply str_eqb_neq; congruence). rewrite E. reflexivity.
+      - unfold under. change (jdir j) with ([WS; j] ++ []). rewrite strip_jdir.
+        assert (E : str_eqb t j = false) by (apply str_eqb_neq; congruence). rewrite E. reflexivity. }
+    set (f1 := move_tree (jdir j) (jdir t) (del_under (jdir t) f)) in *.
+    assert (Em : relocate f j t = Some f1).
+    { unfold Repair.relocate. assert (E : str_eqb t j = false) by (apply str_eqb_neq; congruence).
+      rewrite E, Er. reflexivity. }
+    rewrite Em in H.
+    destruct (relocate_facts _ _ _ _ Em Hok) as [Hok1 _].
+    assert (Hg1 : get f1 (spf t) = Some (File c)).
+    { change (spf t) with (jdir t ++ [SPF]). rewrite (rename_dir_carry f (jdir j) (jdir t) f1 [SPF] Hd Hab Er). exact Hg. }
+    assert (Hv1 : valid f1 t = true).
+    { unfold Repair.valid. rewrite Hg1, Hs. unfold Cache.cid. rewrite Hc. apply str_eqb_refl. }
+    assert (Ei : reinit f1 (reg (ensure_read f s) j v) v = (f1, reg (ensure_read f s) j v, true)).
+    { unfold Repair.reinit, Cache.jinit. rewrite Ho. simpl negb. cbv iota. unfold Cache.cid. rewrite Hc.
+      assert (El : sp_load_view f1 t = Ok (v, v)).
+      { unfold Cache.sp_load_view, Cache.sp_load. rewrite Hg1, Hb. unfold Cache.cid. rewrite Hc, str_eqb_refl.
+        destruct v; try discriminate. reflexivity. }
+      rewrite El. reflexivity. }
+    rewrite Ei in H.
+    destruct v; try discriminate; (eapply loop_keeps_valid; [exact Hnr|exact Hok1|exact Hv1|exact H]).
+  Qed.
 
 End P.
